@@ -1,8 +1,131 @@
-(* C12 — inexact arithmetic follows IEEE-754 after the documented conversion. *)
+(* C12 — Inexact arithmetic follows IEEE-754 after the documented conversion.
+   Property theorems only; every proof is [exact <lemma>].
+
+   binary64 = Coq's Floats.SpecFloat with prec 53, emax 1024 (fadd = SFadd, ...;
+   that these ARE the IEEE-754 operations is the standard library's
+   specification, not re-proved here).  to_f64 is the model of
+   vals.ConvertToFloat64; has_inexact l := some element of l is a float. *)
 From Coq Require Import QArith Floats.SpecFloat.
-From verif Require Import lib.Base model.C11_Num model.C12 proofs.C12_proofs.
+From verif Require Import lib.Base model.C11_Num model.C12 proofs.C11_proofs proofs.C12_proofs.
 Open Scope Z_scope.
 
+(* + with a float among the arguments: every argument converted, then a left
+   fold of IEEE addition from +0 *)
+Theorem C12_add_float_fold : forall l, has_inexact l ->
+  call CAdd l None = RVals [NFloat (fold_left fadd (map to_f64 l) fzero)].
+Proof. exact add_float_fold. Qed.
+Print Assumptions C12_add_float_fold.
+
+(* * likewise from 1, unless the documented exact-zero rule applies *)
+Theorem C12_mul_float_fold : forall l, has_inexact l ->
+  existsb is_int0 l && negb (existsb is_inf l) = false ->
+  call CMul l None = RVals [NFloat (fold_left fmul (map to_f64 l) fone)].
+Proof. exact mul_float_fold. Qed.
+Print Assumptions C12_mul_float_fold.
+
+(* - negates a single argument, otherwise folds from the first argument *)
+Theorem C12_sub_float_fold : forall a r, has_inexact (a :: r) ->
+  call CSub (a :: r) None =
+  RVals [NFloat (match r with [] => fopp (to_f64 a) | _ => fold_left fsub (map to_f64 r) (to_f64 a) end)].
+Proof. exact sub_float_fold. Qed.
+Print Assumptions C12_sub_float_fold.
+
+(* / inverts a single argument (1/x), otherwise folds from the first argument;
+   no argument is an exact 0 (those cases are the exact-zero rules of C11) *)
+Theorem C12_div_float_fold : forall a r, has_inexact (a :: r) ->
+  existsb is_int0 (a :: r) = false ->
+  call CDiv (a :: r) None =
+  RVals [NFloat (match r with [] => fdiv fone (to_f64 a) | _ => fold_left fdiv (map to_f64 r) (to_f64 a) end)].
+Proof. exact div_float_fold. Qed.
+Print Assumptions C12_div_float_fold.
+
+(* for argument lists of floats the model's result passes the oracle, i.e. the
+   code's evaluation order is the one the property states *)
+Theorem C12_float_arith_meets_oracle : forall c l, In c [CAdd; CSub; CMul; CDiv] ->
+  all_float l -> l <> [] -> check_C12 c l (call c l None) = true.
+Proof. exact float_arith_meets_oracle. Qed.
+Print Assumptions C12_float_arith_meets_oracle.
+
+(* floor ceil trunc round round-to-even and abs of a float are the float
+   functions; inexact-num is the conversion *)
+Theorem C12_round_float : forall md f, call (rcmd md) [NFloat f] None = RVals [NFloat (f_round md f)].
+Proof. exact round_float. Qed.
+Print Assumptions C12_round_float.
+
+Theorem C12_abs_float : forall f, call CAbs [NFloat f] None = RVals [NFloat (fabs f)].
+Proof. exact abs_float. Qed.
+Print Assumptions C12_abs_float.
+
+Theorem C12_inexact_num_conv : forall n, call CInexactNum [n] None = RVals [NFloat (to_f64 n)].
+Proof. exact inexact_num_conv. Qed.
+Print Assumptions C12_inexact_num_conv.
+
+(* the rounding functions return integers (for every valid finite double) *)
+Theorem C12_rounding_fn_integral : forall md f, fvalid f = true -> f_is_finite f = true ->
+  exists z, (f_to_Q (f_round md f) == z # 1)%Q.
+Proof. exact rounding_fn_integral. Qed.
+Print Assumptions C12_rounding_fn_integral.
+
+(* integers outside the signed 64-bit range become the infinity of their sign *)
 Theorem C12_to_f64_big_is_inf : forall z, in_int z = false -> to_f64 (NBig z) = S754_infinity (z <? 0).
 Proof. exact to_f64_big_is_inf. Qed.
 Print Assumptions C12_to_f64_big_is_inf.
+
+(* integers of magnitude up to 2^53 convert exactly *)
+Theorem C12_to_f64_int_exact_below_2p53 : forall z, Z.abs z <= 9007199254740992 ->
+  (f_to_Q (to_f64 (NInt z)) == z # 1)%Q.
+Proof. exact to_f64_int_exact_below_2p53. Qed.
+Print Assumptions C12_to_f64_int_exact_below_2p53.
+
+(* exact-num of a finite float: an exact canonical number whose value is the
+   float's binary value m*2^e; Inf/NaN raise *)
+Theorem C12_exact_num_value : forall f, f_is_finite f = true ->
+  exists v, call CExactNum [NFloat f] None = RVals [v] /\ good v (f_to_Q f).
+Proof. exact exact_num_value. Qed.
+Print Assumptions C12_exact_num_value.
+
+Theorem C12_exact_num_nonfinite : forall f, f_is_finite f = false ->
+  call CExactNum [NFloat f] None = RErr ENotFinite.
+Proof. exact exact_num_nonfinite. Qed.
+Print Assumptions C12_exact_num_nonfinite.
+
+(* FULL STATEMENT (exact_inexact_roundtrip): for every valid finite double f with
+   |f| < 2^63,  exists v, call CExactNum [NFloat f] None = RVals [v] /\ to_f64 v = f.
+   (Beyond 2^63 it is false by the documented rule: exact-num 1e30 is a big int
+   and inexact-num of it is +Inf.)  The general proof needs the correctness of
+   binary_normalize's rounding on arbitrary dyadic rationals (Flocq-level); proved
+   here for the doubles of all integers of magnitude <= 2^53; the rest is covered
+   by the correspondence check (exact-num on random bit patterns, subnormals). *)
+Theorem C12_exact_inexact_roundtrip_partial : forall z, Z.abs z <= 9007199254740992 ->
+  let f := to_f64 (NInt z) in
+  call CInexactNum [NInt z] None = RVals [NFloat f]
+  /\ exists v, call CExactNum [NFloat f] None = RVals [v] /\ to_f64 v = f.
+Proof. exact exact_inexact_roundtrip_partial. Qed.
+Print Assumptions C12_exact_inexact_roundtrip_partial.
+
+(* the oracle evaluated on the implementation's observations implies the
+   Prop-level specification *)
+Theorem C12_oracle_sound : forall c args obs, check_C12 c args obs = true -> Spec_C12 c args obs.
+Proof. exact check_C12_sound. Qed.
+Print Assumptions C12_oracle_sound.
+
+(* non-vacuity: 0.1 + 0.2, 2^53 + 1, 2^63, 1/3, signed zeros, evaluation order *)
+Example C12_ex_01_02 : call CAdd [NFloat (fb 4591870180066957722); NFloat (fb 4596373779694328218)] None
+  = RVals [NFloat (fb 4599075939470750516)].
+Proof. vm_compute. reflexivity. Qed.
+Example C12_ex_conv :
+  to_f64 (NInt 9007199254740993) = fb 4845873199050653696
+  /\ to_f64 (NBig 9223372036854775808) = S754_infinity false
+  /\ to_f64 (NRat (1#3)) = fb 4599676419421066581
+  /\ is_nearest (1#3) (fb 4599676419421066581) = true
+  /\ is_nearest (1#3) (fb 4599676419421066582) = false.
+Proof. repeat split; vm_compute; reflexivity. Qed.
+Example C12_ex_order :
+  call CAdd [NFloat (fb 4846369599423283200); NFloat (fb 4607182418800017408); NFloat (fb 14069741636278059008)] None
+  <> call CAdd [NFloat (fb 4846369599423283200); NFloat (fb 14069741636278059008); NFloat (fb 4607182418800017408)] None.
+Proof. vm_compute. discriminate. Qed.
+Example C12_ex_neg_zero :
+  call CSub [NFloat (fb 0)] None = RVals [NFloat (S754_zero true)]
+  /\ call CAdd [NFloat (S754_zero true)] None = RVals [NFloat (S754_zero false)]
+  /\ check_C12 CSub [NFloat (fb 0)] (RVals [NFloat (S754_zero false)]) = false.
+Proof. repeat split; vm_compute; reflexivity. Qed.
